@@ -229,6 +229,39 @@ def invalid_edits():
     return out
 
 
+def extension(**over):
+    """a small extension model file (one structure), as a second --model argument"""
+    d = empty()
+    d["structures"] = [{"name": "ExtensionParams", "properties": [prop("label")]}]
+    d.update(over)
+    return d
+
+
+def invalid_extensions():
+    """[(label, doc)]: extension files whose ONLY schema violation sits at their top level (metaData, extra key)"""
+    out = [("ext-metaData-version-number", extension(metaData={"version": 3.17})),
+           ("ext-metaData-version-missing", extension(metaData={})),
+           ("ext-metaData-unknown-key", extension(metaData={"version": "3.17.0", "extra": 1})),
+           ("ext-unknown-top-level-key", extension(extras=[{"anything": 1}]))]
+    d = extension(); del d["metaData"]
+    out.append(("ext-metaData-missing", d))
+    return out
+
+
+def purity_groups(feats):
+    """model groups whose first document has EMPTY sections that later documents extend (and the reverse)"""
+    fd = dict(feats)
+    only_aliases = empty(); only_aliases["typeAliases"] = copy.deepcopy(fd["or"]["typeAliases"])
+    no_aliases = copy.deepcopy(fd["message-all-optionals"]); no_aliases["typeAliases"] = []
+    only_enums = empty(); only_enums["enumerations"] = copy.deepcopy(fd["enumerations"]["enumerations"])
+    return [("first-file-all-sections-empty", [empty(), fd["or"]]),
+            ("first-file-empty-typeAliases", [no_aliases, only_aliases]),
+            ("three-files-empty-first", [empty(), only_enums, only_aliases]),
+            ("empty-extension", [fd["literal"], empty()]),
+            ("no-empty-section", [fd["or"], fd["or"]]),
+            ("single-file", [fd["extends-mixins"]])]
+
+
 def skeleton(j, key=None):
     if isinstance(j, dict):
         r = {k: skeleton(v, k) for k, v in j.items() if k in SKNAMES}
